@@ -39,6 +39,30 @@ CLAIMED["C19"] = dict(
          "which files exist in a directory is outside the model (isolation is decided per file name).",
     technique="Lean 4 proof (decidable validity predicates, round-trip and isolation theorems for all byte strings) + exhaustive/random differential correspondence",
     design="DESIGN.md §5 C19")
+CLAIMED["C03"] = dict(
+    level="proof",
+    text="Lean 4 theorems over small-step interleaving models (one step per atomic operation / plain cell access, transcribed from the Rust code) of IndexQueue / spsc::Queue and "
+         "SafelyOverflowingIndexQueue, for ANY number of threads, ANY programs, ALL capacities and EVERY schedule: role exclusivity (producer/consumer hand-over), cursor bounds, "
+         "slot integrity, exactly-once / FIFO accounting (popped = log.take rp; for the overflowing queue every taken position has exactly one owner, popped and evicted values are "
+         "exactly those positions, a torn slot read never escapes), conservation, and forward simulation to the atomic (overflowing) bounded FIFO. Tied to /repo by steptrace: the "
+         "instrumented implementation (drop-in regenerated from the working tree) is run under a deterministic scheduler and every atomic event, memory ordering, value and return "
+         "value is compared with the model.",
+    note="Trusted: Lean kernel + 3 standard axioms; hand-written L2 models (tie = trace comparison on the explored programs/schedules); sequential consistency (the view-based RA model of "
+         "DESIGN §4.2 is not mechanised: weak-memory stale reads are NOT covered by a theorem, orderings are only compared between model and code); drop-in generator, scheduler, "
+         "pthread-mutex interposition. The zero-copy connection clause (offsets conserved, release never fails) is proved at L1 in the port-level model, see C08/C02.",
+    technique="Lean 4 proof (inductive invariants over an interleaving semantics, forward simulation) + atomic-step trace correspondence under a deterministic scheduler",
+    design="DESIGN.md §5 C03")
+CLAIMED["C12"] = dict(
+    level="proof",
+    text="Lean 4 theorems over a small-step interleaving model of UnrestrictedAtomic (sequence counter + two cells written and read WORD BY WORD) for ANY number of readers, ANY "
+         "value width, ANY programs and EVERY schedule including preemption between two words: a load returns exactly one of the completely stored values (never a mixture), "
+         "at least as new as the value current when it began, successive loads of a reader never go back, at most one producer token; plus arithmetic theorems that the two cells are "
+         "aligned, disjoint and inside the reserved size for every size/alignment/aligned address (and a counter-theorem for unaligned addresses). Tied to /repo by steptrace on "
+         "UnrestrictedAtomic<[u64;W]> (copy-style and loan-style stores) and a differential run of the layout functions.",
+    note="Trusted: Lean kernel + 3 standard axioms; hand-written L2 model (tie = trace comparison; word-level preemption is not observable in traces, only in the theorem); sequential "
+         "consistency; uniqueness of the writer port / entry handle at port level is checked elsewhere.",
+    technique="Lean 4 proof (seqlock invariant over an interleaving semantics with word-granular copies) + atomic-step trace correspondence + differential layout check",
+    design="DESIGN.md §5 C12")
 NOT_YET = {}
 
 def main():
@@ -53,7 +77,7 @@ def main():
                 thorough_cmd=f"./check {pid} --tier thorough",
                 evidence_file=f"/verif/evidence/{pid}.json",
                 replay_cmd_template=f"./check {pid} --replay {{path}}",
-                engine="lean+seqdiff",
+                engine="lean+steptrace" if pid in ("C03","C05","C09","C10","C12","C13") else "lean+seqdiff",
                 level_claimed=dict(category=c["level"], text=c["text"], design_ref=c["design"]),
                 level_note=c["note"],
                 technique=c["technique"]))
